@@ -467,6 +467,7 @@ class SR:
     shape = ()
     ndim = 0
     size = 1
+    base = None
 
     def ravel(s):
         a = np.empty(1, dtype=object)
